@@ -684,6 +684,8 @@ func (x *Exec) builtin(name string, e *ast.CallExpr, st *State) Value {
 			arr = vSto(arr, x.addIdx(off, ln), v)
 			ln = x.addIdx(ln, x.constOfSort(1, is))
 		}
+		// Go guarantee: a slice length is a non-negative int (allocation fails long before it wraps)
+		x.assume(st, x.geZero(ln))
 		return &StructV{Names: sl.Names, F: []Value{x.vc.nameV("app", arr), off, x.vc.name("len", ln)}}
 	case "delete":
 		mt := x.info.TypeOf(e.Args[0]).Underlying().(*types.Map)
